@@ -58,6 +58,8 @@ class Ctx:
 
     def __init__(self, root="/repo"):
         self.db = ProgramDB(root)
+        from .roles import apply_roles
+        apply_roles(self.db)   # private anchors that were renamed / moved are found by their role in the call graph
         self.ev = Evaluator(self.db)
 
     def label(self, name):
